@@ -2,8 +2,8 @@
 import z3
 from common import *
 import kani, _kprop, _e3
-from mirsmt import sym, conc, models
-from mirsmt.sym import Ptr, bv
+from mirsmt import sym, conc, models, check
+from mirsmt.sym import Ptr, bv, Native, Enum, Agg, UNIT, Fork, Opaque
 
 FUNCS_E1 = ["metrics_exporter_dogstatsd::storage::AtomicCounter::{increment,absolute,flush}", "metrics_exporter_dogstatsd::storage::AtomicGauge::{set,increment,decrement,flush}"]
 HARNESSES = [
@@ -325,6 +325,91 @@ SCEN = [("inc_flush", "c10_inc_flush", ["K6"]), ("inc2_flush2", "c10_inc2_flush2
         ("gauge_set_flush", "c10_gauge_set_flush", []), ("gauge_inc_flush", "c10_gauge_inc_flush", [])]
 
 
+def histogram_flush_vs_record(e3):
+    """AtomicHistogram (sampling off): record(a); then flush(f) while another thread records x; then the recorder finishes; flush; flush.
+    Every value must be handed to the closure of exactly one flush. Bucket operations are atomic steps (C05); the concurrent record may
+    land before any of them (solver's choice)."""
+    from mirsmt import models_bucket_seq as MB, models_str as MS, models_coll as MC
+    P = _e3.program(["metrics-exporter-dogstatsd"])
+    a, x = z3.BitVec("a", 64), z3.BitVec("x", 64)
+    new_b = P.find("AtomicHistogram", "new")
+    rec_b = [b for b in P.by_last["record"] if b.impl and b.impl[1] == "AtomicHistogram" and b.impl[0] is None][0]
+    flush_b = P.find("AtomicHistogram", "flush")
+
+    def cb(k):
+        def h(eng, ctx, f, args):
+            rate, vals = args[0], args[1]
+            it = vals
+            while isinstance(it, Enum):
+                pv = [p for p in it.v.values() if p.f]
+                if len(pv) != 1:
+                    raise sym.Unsupported(f"Values: {vals}")
+                it = pv[0].f[0]
+            it = MC.load(eng, ctx, it)
+            if not (isinstance(it, Native) and it.kind in ("liter", "sliceiter")):
+                raise sym.Unsupported(f"values iterator: {it}")
+            items = [MC.load(eng, ctx, t) for t in it.data[0][it.data[1]:]]
+            ctx.observe("flushed", flush=k, values=tuple(items), sampled=not (isinstance(rate, Enum) and isinstance(rate.discr, int) and rate.discr == 0))
+            return UNIT
+        return Native("callback", h)
+    m = dict(MB.BUCKET_SEQ)
+    m.update({r"^Arc::new$|^Box::new$": models.m_identity})
+    m.update(models.BASE)
+    eng = sym.Engine(P, models=m, loop_bound=4, max_paths=2000)
+    eng.merging = False
+    ctx0 = sym.Ctx(eng, 1)
+
+    def script():
+        hv = yield ("call", new_b, [z3.BoolVal(False), bv(0)])
+        yield ("setstatic", "hist", hv)
+        hp = Ptr(("static", "hist"))
+        yield ("call", rec_b, [hp, a])
+        yield ("setstatic", "env_pending", (x,))
+        yield ("call", flush_b, [hp, cb(0)])
+        # the recorder thread runs to completion: if its push has not landed yet it lands now
+        pend = yield ("getstatic", "env_pending")
+        if pend:
+            yield ("setstatic", "env_pending", ())
+            yield ("call", rec_b, [hp, x])
+        yield ("call", flush_b, [hp, cb(1)])
+        yield ("call", flush_b, [hp, cb(2)])
+        return None
+    leaves = eng.run_script(1, "record; flush || record; flush; flush", script, ctx0=ctx0)
+    e3.absorb(eng)
+    done = [l for l in leaves if l.status == "done"]
+    other = z3.Or(*[l.taken() for l in leaves if l.status != "done"] or [z3.BoolVal(False)])
+    bad = []
+    for l in done:
+        allv = [(pl["flush"], t) for lab, e, pl in l.obs if lab == "flushed" for t in pl["values"]]
+        nx = sum(1 for k, t in allv if z3.is_expr(t) and t.eq(x))
+        na = sum(1 for k, t in allv if z3.is_expr(t) and t.eq(a))
+        a_first = any(k == 0 and z3.is_expr(t) and t.eq(a) for k, t in allv)
+        last_empty = not any(k == 2 for k, t in allv)
+        if not (nx == 1 and na == 1 and a_first and last_empty):
+            bad.append(l.taken())
+    name = "c10_histogram_flush_vs_record"
+    bounds = "AtomicHistogram::new(sampling off); record(a); flush(f) with one concurrent record(x) landing before any bucket operation of the flush (or after it); flush(f); flush(f); a, x arbitrary f64"
+
+    def on_model(ob, model):
+        import replay_e3
+        ob.sample = {"scenario": name, "a_bits": model.eval(a, model_completion=True).as_long()}
+        os.makedirs(os.path.join(REPLAYS, "C10"), exist_ok=True)
+        pp = os.path.join(REPLAYS, "C10", name + ".plan")
+        open(pp, "w").write(replay_e3.plan_text(name, ob.name.split(":")[1], {}, [], {"a": model.eval(a, model_completion=True).as_long()}))
+        status, out = replay_e3.run("c10", pp)
+        ob.detail += f" | native replay (c10, search for the position of the concurrent record inside flush): {status}"
+        ob.sample["native_replay"] = {"status": status, "output": out[-400:]}
+        ob.replay = pp
+        ob.reproduced = status == "reproduced"
+        if not ob.reproduced:
+            ob.status = "error"
+    specs = [dict(name=f"{name}:witness", desc="the history completes", bounds=bounds, cons=[z3.Or(*[l.taken() for l in done] or [z3.BoolVal(False)])], expect_unsat=False),
+             dict(name=f"{name}:returns", desc="record or flush panics", bounds=bounds, cons=[other], expect_unsat=True),
+             dict(name=f"{name}:every_value_in_exactly_one_flush", desc="a value recorded with sampling off (before, or on another thread during, a flush) is handed to no flush or to two", bounds=bounds,
+                  cons=[z3.Or(*bad) if bad else z3.BoolVal(False)], expect_unsat=True, on_model=on_model)]
+    check.discharge_many(e3.res, specs, 120)
+
+
 def run(tier, seed, t0):
     e3 = _e3.E3("C10")
     for kind, nm, known in SCEN:
@@ -336,6 +421,10 @@ def run(tier, seed, t0):
         config_tables(e3)
     except _e3.ENC_ERRORS as ex:
         e3.error("c10_tables", "decision tables of State::get_aggregation_timestamp / is_length_prefixed", ex)
+    try:
+        histogram_flush_vs_record(e3)
+    except _e3.ENC_ERRORS as ex:
+        e3.error("c10_histogram_flush_vs_record", "MIR->SMT encoding of AtomicHistogram::{new,record,flush}", ex)
     for n in ([4] if tier == "quick" else [3, 4, 5]):
         try:
             flush_history(e3, n)
